@@ -549,8 +549,11 @@ def r04_12(ctx: Ctx) -> None:
                       "test() skips the packed streams that have no CRC and still ends in `return True`: damage in such a stream is certified as good while extractall() raises "
                       "CrcError for the same archive (partially defined packed-stream CRCs)", construct="test() verdict with unverified streams")
     h = ctx.prog.func("archiveinfo", "Header._read")
-    cmps = [n for n in walk(h.node) if isinstance(n, ast.Compare) and any(isinstance(x, ast.Attribute) and x.attr == "crcs" for x in ast.walk(n))
-            and any(isinstance(x, ast.Call) and attr_tail(x) == "calculate_crc32" for x in ast.walk(n))]
+    def _is_crc(e: ast.AST) -> bool:
+        return any(isinstance(x, ast.Call) and attr_tail(x) == "calculate_crc32" for x in ast.walk(e)) or \
+            q.derives_from(h, e, lambda s_: isinstance(s_, ast.Call) and attr_tail(s_) == "calculate_crc32")
+    cmps = [n for n in walk(h.node) if isinstance(n, ast.Compare) and len(n.ops) == 1 and any(isinstance(x, ast.Attribute) and x.attr == "crcs" for x in ast.walk(n))
+            and (_is_crc(n.left) or _is_crc(n.comparators[0]))]
     ok = False
     hcfg = cfg_of(h.node)
     for c in cmps:
@@ -566,7 +569,24 @@ def r04_12(ctx: Ctx) -> None:
               construct="encoded header pack crc")
 
 
+def r04_14(ctx: Ctx) -> None:
+    """the folder CRC is due when the folder has been DELIVERED, not when the file position has reached the end of the folder: the decoder
+    reads its input lazily (a trailing end marker need not have been fetched), so a condition on `tell()` can leave the folder CRC
+    uncompared for ever and testzip() certifies damaged data."""
+    f = ctx.prog.func("py7zr", "Worker.decompress")
+    checks = [c for c in q.calls(f) if attr_tail(c) == "check_crc"]
+    ctx.floor("R04.14", len(checks), 1, "folder CRC comparison in Worker.decompress")
+    for c in checks:
+        facts = q.facts_at(f, c)
+        positional = [cd for cd, pol in facts if any(isinstance(x, ast.Call) and attr_tail(x) == "tell" for x in ast.walk(cd))]
+        ctx.check(not positional, "R04.14", f, c, "the folder CRC comparison does not wait for a file position",
+                  f"the folder CRC is compared only under `{norm(positional[0]) if positional else ''}`: the decoder fetches its input lazily, so for a folder whose data is complete "
+                  "before the last packed byte is read (LZMA2 end marker, last substream of zero bytes) the comparison never happens and testzip() returns None for damaged data",
+                  construct="folder crc waits for tell()")
+
+
 def run(ctx: Ctx) -> None:
+    r04_14(ctx)
     from . import c11 as _c11
     _c11.r11_7(ctx, rule="R04.13")  # no wrong bytes stay on disk behind a CrcError
     r04_12(ctx)
